@@ -3,6 +3,7 @@ import FuModel.Find.Run
 import FuModel.Spec.RunRef
 import FuModel.Find.StartPoints
 import FuModel.Xargs.Read
+import FuModel.Pred.C08
 
 /-!
 Driver verb `find`: a whole run of find on an observed world.
@@ -82,6 +83,15 @@ def parseArg (s : String) : Option Arg :=
   | ["type", c] => (match c.toList with | [c] => some (.tok (.prim (.typeIs c))) | _ => none)
   | ["lit", h] => (bytesOfHex h).map fun b => .tok (.prim (.lit b))
   | ["vp", h] => (bytesOfHex h).map fun b => .tok (.prim (.pathOut b [10]))
+  | ["exec", d, ok, cmd, tmpl] => do
+    let cmd ← bytesOfHex cmd
+    let tmpl ← (if tmpl == "_" then some [] else (tmpl.splitOn "~").mapM bytesOfHex)
+    pure (.tok (.prim (.exec (d == "1") (ok == "1") cmd tmpl)))
+  | ["execm", id, d, ok, cmd, fixed] => do
+    let id ← id.toNat?
+    let cmd ← bytesOfHex cmd
+    let fixed ← (if fixed == "_" then some [] else (fixed.splitOn "~").mapM bytesOfHex)
+    pure (.tok (.prim (.execMulti id (d == "1") (ok == "1") cmd fixed)))
   | ["mindepth", n] => n.toNat?.map .minDepth
   | ["maxdepth", n] => n.toNat?.map .maxDepth
   | _ => none
@@ -103,7 +113,7 @@ def parseReq : List String → Option Req
   | _ => none
 
 def showRes : Option RunRes → String
-  | some r => s!"st={r.ret} diags={r.diags} out={hexOfBytes r.out}"
+  | some r => s!"st={r.ret} diags={r.diags} out={hexOfBytes r.gs.out}"
   | none => "st=1 diags=1 out=-"
 
 def handle (verb : String) (args : List String) : Option String :=
@@ -153,7 +163,7 @@ def parseReq0 : List String → Option ReqV
   | _ => none
 
 def showResV (extra : Bool) : Option RunRes → String
-  | some r => s!"st={r.ret} diags={r.diags + (if extra then 1 else 0)} out={hexOfBytes r.out}"
+  | some r => s!"st={r.ret} diags={r.diags + (if extra then 1 else 0)} out={hexOfBytes r.gs.out}"
   | none => "st=1 diags=1 out=-"
 
 def handleV (verb : String) (args : List String) : Option String :=
@@ -193,6 +203,95 @@ def predFindSet (req obs : List String) : Option Bool :=
     | none => pure false
   | _ => none
 
+/-- canonical spelling of a working directory relative to find's own: components joined by '/', `.` for none -/
+def normDir (p : Bytes) : Bytes :=
+  let cs := (FuModel.Path.comps p).map (·.1) |>.filter (· != FuModel.Path.dot)
+  let body := (List.intercalate [47] cs)
+  if FuModel.Path.rooted p then 47 :: body else if body.isEmpty then [46] else body
+
+def showExec (e : ExecEvent) : String :=
+  (match e.cwd with | none => "2e" | some d => hexOfBytes (normDir d)) ++ "|" ++ "~".intercalate (e.argv.map hexOfBytes)
+
+def showExecs (es : List ExecEvent) : String := if es.isEmpty then "." else ";".intercalate (es.map showExec)
+
+/-- `findx <flag> <roots> <args> <statuses of the commands> <ARG_MAX minus environment>` -/
+def handleX (verb : String) (args : List String) : Option String :=
+  match verb, args with
+  | "findx", [f, roots, as, script, budget] => do
+    let r ← parseReq [f, roots, as]
+    let script ← (splitList script).mapM String.toNat?
+    let budget ← budget.toNat?
+    match run r.follow r.roots r.args { script := script, budget := budget } with
+    | some res =>
+      if res.gs.panicked then pure "panic"
+      else pure s!"st={res.ret} out={hexOfBytes res.gs.out} execs={showExecs res.gs.execs}"
+    | none => pure "st=1 out=- execs=."
+  | _, _ => none
+
+def parseObsX : List String → Option (Nat × Bytes × List (Bytes × List Bytes))
+  | [st, out, ex] => do
+    let st ← (st.dropPrefix? "st=").bind (·.toString.toNat?)
+    let out ← (out.dropPrefix? "out=").bind (bytesOfHex ·.toString)
+    let ex ← (ex.dropPrefix? "execs=").map (·.toString)
+    let evs ← (if ex == "." then some [] else (ex.splitOn ";").mapM fun e =>
+      match e.splitOn "|" with
+      | [cwd, argv] => do
+        let cwd ← bytesOfHex cwd
+        let argv ← (argv.splitOn "~").mapM bytesOfHex
+        pure (cwd, argv)
+      | _ => none)
+    pure (st, out, evs)
+  | _ => none
+
+def predX (multi : Bool) (req obs : List String) : Option Bool :=
+  match req with
+  | ["findx", f, roots, as, script, _] => do
+    let r ← parseReq [f, roots, as]
+    let script ← (splitList script).mapM String.toNat?
+    match parseObsX obs with
+    | some (st, out, evs) =>
+      pure (if multi then FuModel.Pred.C08.predMulti r.follow r.roots r.args script st out evs normDir
+            else FuModel.Pred.C08.predSingle r.follow r.roots r.args script st out evs normDir)
+    | none => pure false
+  | _ => none
+
+/-- compact rendering of the started commands for huge command lines:
+    `<argc>:<total bytes of all arguments>:<first 12 bytes of argv[1]>:<first 12 bytes of the last argument>` -/
+def showExecCompact (e : ExecEvent) : String :=
+  let total := (e.argv.map List.length).foldl (· + ·) 0
+  let pre : Bytes → String := fun a => hexOfBytes (a.take 12)
+  s!"{e.argv.length}:{total}:{pre (e.argv.getD 1 (e.argv.getD 0 []))}:{pre (e.argv.getLast?.getD [])}"
+
+def handleXC (verb : String) (args : List String) : Option String :=
+  match verb, args with
+  | "findxc", [f, roots, as, script, budget] => do
+    let r ← parseReq [f, roots, as]
+    let script ← (splitList script).mapM String.toNat?
+    let budget ← budget.toNat?
+    match run r.follow r.roots r.args { script := script, budget := budget } with
+    | some res =>
+      if res.gs.panicked then pure "panic"
+      else pure s!"st={res.ret} inv={if res.gs.execs.isEmpty then "." else ";".intercalate (res.gs.execs.map showExecCompact)}"
+    | none => pure "st=1 inv=."
+  | _, _ => none
+
+/-- compact form: all reached paths were delivered (counted), every command line was accepted by
+    the operating system (the recorder ran), status 0 -/
+def predXC (req obs : List String) : Option Bool :=
+  match req, obs with
+  | ["findxc", f, roots, as, script, _], [st, inv] => do
+    let r ← parseReq [f, roots, as]
+    let script ← (splitList script).mapM String.toNat?
+    let st ← (st.dropPrefix? "st=").bind (·.toString.toNat?)
+    let inv ← (inv.dropPrefix? "inv=").map (·.toString)
+    let argcs ← (if inv == "." then some [] else (inv.splitOn ";").mapM fun e => (e.splitOn ":").head?.bind String.toNat?)
+    match FuModel.Find.RunRef.refRunX r.follow r.roots r.args script, FuModel.Pred.C08.firstMulti r.args with
+    | some (ref, reached), some (_, _, _, fixed) =>
+      let delivered := (argcs.map fun n => n - 1 - fixed.length).foldl (· + ·) 0
+      pure (delivered == reached.length && ((st == 0) == (ref.ret == 0 && script.all (· == 0))))
+    | _, _ => pure false
+  | _, _ => none
+
 /-- `pipe0`: find's output through `xargs -0`: the arguments delivered, in order -/
 def handlePipe (verb : String) (args : List String) : Option String :=
   match verb with
@@ -200,7 +299,7 @@ def handlePipe (verb : String) (args : List String) : Option String :=
     let r ← parseReq args
     match run r.follow r.roots r.args with
     | some res =>
-      let delivered := FuModel.Xargs.bdAll 0 res.out
+      let delivered := FuModel.Xargs.bdAll 0 res.gs.out
       pure s!"fst={res.ret} xst=0 args={joinList (delivered.map hexOfBytes)}"
     | none => pure "fst=1 xst=0 args=."
   | _ => none
